@@ -123,7 +123,7 @@ def run(ctx):
     ordered, nclasses = F.stratified(cases, key, 0, ctx.seed)
     if not thorough:
         ordered = ordered[:420]
-    verdicts, stats, ran = F.replay(ctx, ordered, threads, int(os.environ.get('VERIF_FETCH_BUDGET', 780 if thorough else 60)))
+    verdicts, stats, ran = F.replay(ctx, ordered, threads, int(os.environ.get('VERIF_FETCH_BUDGET', 600 if thorough else 60)))
     done = stats.get("evaluations", 0)
     if done < (60 if not thorough else 600):
         raise vlib.ToolError(f"only {done} scenarios replayed within the time budget")
@@ -146,7 +146,7 @@ def run(ctx):
     # 4. implementation -> spec
     n = 1200 if thorough else 90
     recorded, accepted, rdrift = F.record_and_validate(ctx, PROP, n, 4, threads, statement_checks,
-                                                         budget_secs=300 if thorough else 60, at_least=200 if thorough else 30)
+                                                         budget_secs=240 if thorough else 60, at_least=200 if thorough else 30)
     ok = accepted == len(recorded)
     ctx.cov["traces_validated_against_impl"] += accepted
     ctx.cov["evaluations"] += len(recorded)
